@@ -242,10 +242,17 @@ def _protocol_worker(
     except ZeroDivisionError:
         res = Result(Exception())
 
-    time_points = np.linspace(
-        0,
-        protocol.index[-1].total_seconds(),
-        len(protocol) * time_points_per_step,
+    # Same time grid as a successful run: t=0, then `time_points_per_step` points
+    # per protocol step (the first point of each step is the end of the last one)
+    t_ends = [cast(pd.Timedelta, t).total_seconds() for t in protocol.index]
+    time_points = np.concatenate(
+        [
+            np.array([0.0]),
+            *(
+                np.linspace(t0, t1, time_points_per_step + 1, dtype=float)[1:]
+                for t0, t1 in zip([0.0, *t_ends[:-1]], t_ends, strict=True)
+            ),
+        ]
     )
     return res.default(lambda: Simulation.default(model=model, time_points=time_points))
 
